@@ -1,6 +1,7 @@
 package core
 
 import (
+	"strings"
 	"bytes"
 	"fmt"
 	"go/ast"
@@ -41,6 +42,7 @@ import (
 var inlineSeq int64
 
 type inliner struct {
+	opts     NormaliseOpts
 	p        *Program
 	keep     func(*types.Func) bool
 	counter  int
@@ -54,8 +56,16 @@ type inliner struct {
 
 // NormaliseOverlay returns overlay contents (file name -> source) in which
 // eligible helper calls have been expanded, and the list of expanded helpers.
-func NormaliseOverlay(p *Program, keep func(*types.Func) bool) (map[string][]byte, []string) {
-	in := &inliner{p: p, keep: keep, inlined: map[string]int{}, expanded: map[*types.Func]int{}, bodies: map[*types.Func]*ast.FuncDecl{},
+// NormaliseOpts tunes the normal form for the property being decided.
+type NormaliseOpts struct {
+	// StripRecoverAlways: drop a fail-closed recover wrapper even when a caller swallows the
+	// error it produces. Sound for every property that does not distinguish "aborts" from
+	// "returns an error that a caller may ignore" — all but the fail-closed property C09.
+	StripRecoverAlways bool
+}
+
+func NormaliseOverlay(p *Program, keep func(*types.Func) bool, opts NormaliseOpts) (map[string][]byte, []string) {
+	in := &inliner{p: p, keep: keep, opts: opts, inlined: map[string]int{}, expanded: map[*types.Func]int{}, bodies: map[*types.Func]*ast.FuncDecl{},
 		pkgOf: map[*types.Func]*packages.Package{}, changed: map[*ast.File]bool{}, filePkg: map[*ast.File]*packages.Package{}}
 	for _, pk := range p.Pkgs {
 		for _, f := range pk.Syntax {
@@ -1144,8 +1154,11 @@ func cloneExpr(e ast.Expr) ast.Expr {
 // wrapper maps the outcome "panic" to the outcome "(zero value, non-nil
 // error)" and changes nothing else; every property of this code base treats
 // the two abort outcomes alike, provided the callers look at the error. The
-// wrapper is therefore dropped only when every in-module caller binds the
-// error result to a named variable (or returns the call directly).
+// wrapper is therefore dropped only when every in-module caller propagates the
+// error: it tests `err != nil` and in that branch returns the error (or something
+// built from it) or ends the process, or it returns the call directly. A caller
+// that looks at the error and carries on (sfWrap returns an empty separator)
+// swallows the failure, and the wrapper stays.
 func (in *inliner) stripFailClosedRecover(pk *packages.Package, file *ast.File, fd *ast.FuncDecl) bool {
 	if fd.Body == nil || len(fd.Body.List) == 0 || fd.Type.Results == nil {
 		return false
@@ -1314,35 +1327,116 @@ func (in *inliner) stripFailClosedRecover(pk *packages.Package, file *ast.File, 
 		return false
 	}
 	okCalls, uses := 0, 0
+	// propagates: the statement list, from position i on, tests `errName != nil` and in that
+	// branch returns the error (or something built from it) or ends the process — a caller that
+	// merely looks at the error and carries on (e.g. returns an empty value) swallows the failure
+	mentions := func(e ast.Expr, name string) bool {
+		found := false
+		ast.Inspect(e, func(n ast.Node) bool {
+			if id, ok := n.(*ast.Ident); ok && id.Name == name {
+				found = true
+			}
+			return true
+		})
+		return found
+	}
+	bodyPropagates := func(body *ast.BlockStmt, errName string) bool {
+		ok := false
+		ast.Inspect(body, func(n ast.Node) bool {
+			switch x := n.(type) {
+			case *ast.FuncLit:
+				return false
+			case *ast.ReturnStmt:
+				if len(x.Results) > 0 && mentions(x.Results[len(x.Results)-1], errName) {
+					ok = true
+				}
+			case *ast.CallExpr:
+				switch f := x.Fun.(type) {
+				case *ast.Ident:
+					if f.Name == "panic" {
+						ok = true
+					}
+				case *ast.SelectorExpr:
+					if pk, isID := f.X.(*ast.Ident); isID && (pk.Name == "log" && strings.HasPrefix(f.Sel.Name, "Fatal") || pk.Name == "log" && strings.HasPrefix(f.Sel.Name, "Panic") || pk.Name == "os" && f.Sel.Name == "Exit") {
+						ok = true
+					}
+				}
+			}
+			return true
+		})
+		return ok
+	}
+	isErrTest := func(cond ast.Expr, errName string) bool {
+		b, ok := cond.(*ast.BinaryExpr)
+		if !ok || b.Op != token.NEQ {
+			return false
+		}
+		x, okx := b.X.(*ast.Ident)
+		y, oky := b.Y.(*ast.Ident)
+		return okx && oky && (x.Name == errName && y.Name == "nil" || y.Name == errName && x.Name == "nil")
+	}
+	callOf := func(q *packages.Package, st ast.Stmt) (errName string, ok bool) {
+		as, isAs := st.(*ast.AssignStmt)
+		if !isAs || len(as.Rhs) != 1 || len(as.Lhs) != len(results) {
+			return "", false
+		}
+		c, isCall := as.Rhs[0].(*ast.CallExpr)
+		if !isCall || calleeOf(q.TypesInfo, c) != fnObj {
+			return "", false
+		}
+		id, isID := as.Lhs[len(as.Lhs)-1].(*ast.Ident)
+		if !isID || id.Name == "_" {
+			return "", false
+		}
+		return id.Name, true
+	}
 	for _, q := range in.p.Pkgs {
 		for _, o := range q.TypesInfo.Uses {
 			if o == types.Object(fnObj) {
 				uses++
 			}
 		}
+		q := q
+		var doList func(list []ast.Stmt)
+		doList = func(list []ast.Stmt) {
+			for i, st := range list {
+				if errName, isCall := callOf(q, st); isCall {
+					for _, later := range list[i+1:] {
+						if ifs, isIf := later.(*ast.IfStmt); isIf && ifs.Init == nil && isErrTest(ifs.Cond, errName) {
+							if bodyPropagates(ifs.Body, errName) {
+								okCalls++
+							}
+							break
+						}
+					}
+				}
+				if ifs, isIf := st.(*ast.IfStmt); isIf && ifs.Init != nil {
+					if errName, isCall := callOf(q, ifs.Init); isCall && isErrTest(ifs.Cond, errName) && bodyPropagates(ifs.Body, errName) {
+						okCalls++
+					}
+				}
+				if ret, isRet := st.(*ast.ReturnStmt); isRet && len(ret.Results) == 1 {
+					if c, ok := ret.Results[0].(*ast.CallExpr); ok && calleeOf(q.TypesInfo, c) == fnObj {
+						okCalls++
+					}
+				}
+			}
+		}
 		for _, f := range q.Syntax {
 			ast.Inspect(f, func(n ast.Node) bool {
 				switch x := n.(type) {
-				case *ast.AssignStmt:
-					if len(x.Rhs) == 1 && len(x.Lhs) == len(results) {
-						if c, ok := x.Rhs[0].(*ast.CallExpr); ok && calleeOf(q.TypesInfo, c) == fnObj {
-							if id, ok := x.Lhs[len(x.Lhs)-1].(*ast.Ident); ok && id.Name != "_" {
-								okCalls++
-							}
-						}
-					}
-				case *ast.ReturnStmt:
-					if len(x.Results) == 1 {
-						if c, ok := x.Results[0].(*ast.CallExpr); ok && calleeOf(q.TypesInfo, c) == fnObj {
-							okCalls++
-						}
-					}
+				case *ast.BlockStmt:
+					doList(x.List)
+				case *ast.CaseClause:
+					doList(x.Body)
+				case *ast.CommClause:
+					doList(x.Body)
 				}
 				return true
 			})
 		}
 	}
-	if okCalls != uses {
+	if okCalls != uses && !in.opts.StripRecoverAlways {
 		return false
 	}
 	fd.Body.List = fd.Body.List[1:]
